@@ -9,13 +9,13 @@ from build import VERIF, WORK
 class Job:
     def __init__(self, name, props, group, harness, config='baseline', defines=(), unwind=8, unwindset=(), timeout=240,
                  mem_gb=6, tier='quick', temp_mode=2, roots=r'^w_', threads=1, desc='', bounds='', finding=None,
-                 function='harness', extra=(), witness=True, solver=None, sweep=True):
+                 function='harness', extra=(), witness=True, solver=None, sweep=True, model_only=False):
         self.name = name; self.props = props if isinstance(props, (list, tuple)) else [props]
         self.group = group; self.harness = harness; self.config = config; self.defines = list(defines)
         self.unwind = unwind; self.unwindset = list(unwindset); self.timeout = timeout; self.mem_gb = mem_gb
         self.tier = tier; self.temp_mode = temp_mode; self.roots = roots; self.threads = threads
         self.desc = desc; self.bounds = bounds; self.finding = finding; self.function = function
-        self.extra = list(extra); self.witness = witness; self.solver = solver; self.sweep = sweep
+        self.extra = list(extra); self.witness = witness; self.solver = solver; self.sweep = sweep; self.model_only = model_only
 
     def cfg_defines(self):
         c = build.CONFIGS[self.config]
@@ -109,8 +109,12 @@ def run_job(job, rh, vh, use_cache=True):
         else:
             res['discharged'] = res['obligations'] - len(real)
             res['failed'] = [f['description'] for f in real]
-            # replay the first failing obligation against the real code
-            res.update(replay_failure(job, g, real, extra))
+            if job.model_only:
+                # harness uses per-thread copies of thread_local state and a thread-exit hook that exist only in the model
+                res.update(status='violation', failing=real[0]['description'], detail='model-level counterexample (no native replay: the schedule is a constant of the query, thread-local state is modelled): ' + '; '.join(res['failed'])[:400])
+            else:
+                # replay the first failing obligation against the real code
+                res.update(replay_failure(job, g, real, extra))
     res['wall_s'] = round(time.time() - t0, 2)
     if res['status'] in ('ok', 'violation', 'known') and use_cache:
         json.dump(res, open(cpath, 'w'))
